@@ -120,6 +120,17 @@ public:
         return min_weight_;
     }
 
+    void rollback(std::size_t iteration) override
+    {
+        // a checkpoint read from a stream only knows the first weights through its first result
+        if ((iteration == 0) && !this->results().empty())
+        {
+            first_channel_weights_ = this->results().front().channel_weights();
+        }
+
+        chkpt<multi_channel_result<T>>::rollback(iteration);
+    }
+
     void serialize(std::ostream& out) const override
     {
         chkpt<multi_channel_result<T>>::serialize(out);
